@@ -13,7 +13,7 @@ Rec == ndJsonDeserialize(IOEnv.TRACE)
 VARIABLE l
 vars == <<l>>
 
-PointOk(r, k) == LET e == Side(r.term, I3(r.pts[k])) IN e \in {0, Undef} \/ r.sign[k] = e
+PointOk(r, k) == LET e == Side(r.term, F3(r.pts[k])) IN e \in {0, Undef} \/ r.sign[k] = e
 Fails(r) == IF r.panic # "" THEN {"crash"}
             ELSE IF Len(r.sign) = Len(r.pts) /\ \A k \in 1..Len(r.pts) : PointOk(r, k) THEN {} ELSE {"geometry-" \o r.term[1]}
 
